@@ -466,10 +466,11 @@ class State:
                     self.materialise(p)
                 del self.sym[p]
 
-    def kill_under(self, prefix, names=None):
+    def kill_under(self, prefix, names=None, by_call=False):
         """forget facts about places strictly below/at `prefix`; with `names`, only those whose path below the
-        prefix mentions one of the field names (callee mod summary)"""
-        self.mark_dirty((prefix[0], prefix[1], tuple(sorted(names))) if names is not None else prefix)
+        prefix mentions one of the field names (callee mod summary).  Dirty entries of writes made by an analysed callee are
+        3-tuples (prefix root, steps, names or None = everything)"""
+        self.mark_dirty((prefix[0], prefix[1], tuple(sorted(names))) if names is not None else ((prefix[0], prefix[1], None) if by_call else prefix))
         def hit1(pl):
             if not under(pl, prefix):
                 return False
